@@ -156,7 +156,13 @@ def extract_iter(
                 unwrapped = None
                 save_errors.append(ex)
             if unwrapped is None:
-                loops_since_progress = 0
+                if loops_since_progress <= 100:
+                    loops_since_progress = 0
+                # Otherwise we just gave up on something that looks like an
+                # infinite loop. Keep giving up on whatever it left in the
+                # queue until we next reach a frame: if each step of the loop
+                # produces several copies of the item, starting the count
+                # afresh for each copy would never terminate.
                 to_elaborate.append((current, depth))
                 continue
 
